@@ -87,6 +87,11 @@ def generate(rng, n, tier, stats):
     while len(cases) < n:
         a = rand_array(rng, stats=stats, attrs=rng.random() < 0.3, maxlen=4 if tier == 'quick' else 5)
         nd = len(a['dims'])
+        if nd >= 2 and a['flat'] and rng.random() < 0.05:
+            # a boolean mask of the full shape: the selected cells in row-major order, each labelled by the tuple of its own labels
+            stats['spelling']['n-d mask'] += 1
+            cases.append({'ins': [a], 'ops': [['get_ndmask', [rng.random() < 0.5 for _ in a['flat']], rng.choice(['getitem_np', 'getitem_da', 'take', 'compress'])]]})
+            continue
         by = 'label' if rng.random() < 0.8 else 'position'
         spelling = rng.choice(['getitem', 'getitem', 'take', 'take', 'loc', 'sel', 'ix', 'iloc', 'isel', 'take_pos', 'take_lab', 'nloc', 'tol', 'tol', 'tol'])
         if by == 'position' and rng.random() < 0.5:
@@ -223,6 +228,19 @@ def py_pos(ix):
 
 def oracle(case, res):
     a = case['ins'][0]; op = case['ops'][0]
+    if op[0] == 'get_ndmask':
+        if res[0] == 'err': return 'indexing with a boolean mask of the full shape raised %s' % res[1]
+        arr = mk_array(a); m = np.array(op[1], dtype=bool).reshape(arr.shape)
+        pos = np.argwhere(m)
+        want_v = arr.values[m].tolist()
+        want_l = [[a['labels'][d][p] for d, p in enumerate(row)] for row in pos.tolist()]
+        g = res[1]
+        if g['t'] != 'arr': return None if not want_v else 'a scalar came back'
+        r = g['v']
+        if len(r['axes']) != 1 or r['axes'][0]['name'] != ','.join(a['dims']): return 'dims %r, expected one dimension named %r' % (obs_dims(r), ','.join(a['dims']))
+        if len(r['flat']) != len(want_v) or any(not cell_eq(x, y) and not (not isinstance(x, dict) and float(x) == float(y)) for x, y in zip(r['flat'], [cell_json(v) for v in want_v])): return 'values are not the selected cells in row-major order'
+        if not labs_eq(r['axes'][0]['labels'], want_l): return 'labels %r, expected the coordinate tuples %r (each label of its own type)' % (r['axes'][0]['labels'][:3], want_l[:3])
+        return None
     exp = expected(a, op)
     if exp is None: return None
     if exp == 'IndexError':
